@@ -1141,7 +1141,9 @@ def _run_one(case, scratch, run_index, done_before, prev=None, xp_name=None, end
             else:
                 eng.exit_result = "exception" if end_mode == "exception" else ("hung" if end_mode == "normal" else "teardown")
                 loop.call_soon_threadsafe(loop.stop)
-                xp.__exit__(RuntimeError, RuntimeError("teardown"), None)
+                # (C16: what escapes the block may be an interruption that is not an `Exception`)
+                exc_cls = {"KeyboardInterrupt": KeyboardInterrupt, "SystemExit": SystemExit}.get(case.get("exit_exc"), RuntimeError)
+                xp.__exit__(exc_cls, exc_cls("teardown"), None)
             central.join(2)
         except Exception:
             pass
